@@ -36,7 +36,7 @@ def candidates(key, src):
     return lines, out
 
 
-def gen(key, outdir, mx):
+def gen(key, outdir, mx, skip=0):
     os.makedirs(outdir, exist_ok=True)
     rel = FILES[key]
     src = open(os.path.join("/repo", rel)).read()
@@ -48,6 +48,8 @@ def gen(key, outdir, mx):
     kept = 0
     try:
         for n, (i, new, what) in enumerate(cands[:mx]):
+            if n < skip:
+                continue
             mut = list(lines)
             mut[i] = new
             dst = "\n".join(mut)
@@ -81,7 +83,16 @@ def kill(outdir, ids):
                 res[fn] = {"_": "patch failed"}
                 continue
             r = {}
-            for chk in ids:
+            line = int(re.search(r"_L(\d+)_", fn).group(1))
+            use = ids
+            if os.path.exists(os.path.join(outdir, "map.json")):
+                for lo, hi, chks in json.load(open(os.path.join(outdir, "map.json"))):
+                    if lo <= line <= hi:
+                        use = chks
+                        break
+                else:
+                    use = []
+            for chk in use:
                 q = subprocess.run(["./check", chk, "quick"], cwd=root, env=dict(os.environ, ORQUESTA_SRC=d), capture_output=True, text=True)
                 m = re.search(r"^violation \([^)]*\): (\S+)", q.stdout, re.M)
                 r[chk] = [q.returncode, m.group(1) if m else None]
@@ -96,6 +107,6 @@ def kill(outdir, ids):
 
 if __name__ == "__main__":
     if sys.argv[1] == "gen":
-        gen(sys.argv[2], sys.argv[3], int(sys.argv[4]) if len(sys.argv) > 4 else 10**6)
+        gen(sys.argv[2], sys.argv[3], int(sys.argv[4]) if len(sys.argv) > 4 else 10**6, int(sys.argv[5]) if len(sys.argv) > 5 else 0)
     else:
         kill(sys.argv[2], sys.argv[3:])
